@@ -320,6 +320,12 @@ C04_SYS_RULE = ("sys scenario B (real broker, 2-4 real clients under a PRNG-chos
                 "implementation-only oracle: every proxy subscribed to that id or to all events of the service receives it")
 
 
+C10_SYS_RULE = ("sys scenario B (real broker, 2-4 real clients, several bus listeners per client with different filters, "
+                "started and stopped at random points): implementation-only oracle: whatever a listener yields matches one of the "
+                "filters it has ever been given (the broker sends a new event once per connection; the client library must match "
+                "it against every listener's own filters)")
+
+
 def broker_prop(pid, module):
     if pid == "C04":
         base = broker_prop("C04*", module)
@@ -329,6 +335,15 @@ def broker_prop(pid, module):
                                                         extra_args=["B"], rule=C04_SYS_RULE, subdir="-sys")))
         base["trusted"] = list(base["trusted"]) + ["the owner's client-side subscription record (aldrin/src/client/broker_subscriptions.rs) is "
                                                    "not modelled; it is exercised by the probe round of sys scenario B only"]
+        return base
+    if pid == "C10":
+        base = broker_prop("C10*", module)
+        base["run"] = combine_runs(("", base["run"]),
+                                   ("sys.", generic_run("sys", set(), {"C10"}, {"quick": (300, 4), "thorough": (3000, 14)},
+                                                        canon=None, scenario_cmd="cnew", full_canon=lambda q, line: line,
+                                                        extra_args=["B"], rule=C10_SYS_RULE, subdir="-sys")))
+        base["trusted"] = list(base["trusted"]) + ["the client library's fan-out of untagged bus events to the listeners of one client "
+                                                   "(aldrin/src/bus_listener.rs) is not modelled; it is exercised by sys scenario B only"]
         return base
     pid = pid.rstrip("*")
     return {
